@@ -138,10 +138,14 @@ func c08ListenerRun(rc *RunCtx, p *C08Params) {
 			c := c
 			s.Go("close", func() { _ = c.conn.Close() })
 		}
-		for _, a := range accepted {
-			a := a
-			s.Go("close", func() { _ = a.Close() })
-		}
+		// one goroutine for all of them: several hundred goroutines made runnable at one instant
+		// overflow the runtime's local run queue, and the order in which the global queue is then
+		// polled depends on a per-process scheduler tick - the one thing no seam here controls
+		s.Go("close-accepted", func() {
+			for _, a := range accepted {
+				_ = a.Close()
+			}
+		})
 		s.Go("close-listener", func() { _ = ln.Close() })
 		s.Drain(func() bool { return s.OpsLive() == 0 }, 10*time.Second)
 		n.CloseAll()
